@@ -126,19 +126,22 @@ Definition stamped (s : state) (pid : nat) (a : action) : entry :=
 
 Definition quiet_action (a : action) : Prop :=
   (forall x v, a <> ARead x v) /\ (forall p v, a <> AWrite p v).
+(* [aw]: may the step log that a process has been resumed (only the head of a ready-queue task does) *)
+Definition quiet_action' (aw : bool) (a : action) : Prop :=
+  quiet_action a /\ (aw = false -> forall w g, a <> AWake w g).
 
-Inductive effect (s s' : state) : Prop :=
+Inductive effect (aw : bool) (s s' : state) : Prop :=
 | EF_quiet : forall new,
     s_log s' = new ++ s_log s -> s_circ s' = s_circ s -> s_err s' = false ->
-    Forall (fun e => exists pid a, e = stamped s pid a /\ quiet_action a) new -> effect s s'
+    Forall (fun e => exists pid a, e = stamped s pid a /\ quiet_action' aw a) new -> effect aw s s'
 | EF_read : forall pid x,
     s_log s' = stamped s pid (ARead x (circ_read x (s_circ s))) :: s_log s -> s_circ s' = s_circ s -> s_err s' = false ->
-    effect s s'
+    effect aw s s'
 | EF_write : forall pid p v,
     s_log s' = stamped s pid (AWrite p v) :: s_log s -> s_circ s' = circ_write p v (s_circ s) -> s_err s' = false ->
-    effect s s'
+    effect aw s s'
 | EF_write_err : forall pid p v,
-    s_log s' = LErr :: stamped s pid (AWrite p v) :: s_log s -> s_err s' = true -> effect s s'.
+    s_log s' = LErr :: stamped s pid (AWrite p v) :: s_log s -> s_err s' = true -> effect aw s s'.
 
 (* circuit under the bookkeeping operations *)
 Definition same_circ (s s' : state) : Prop := s_circ s' = s_circ s.
@@ -151,67 +154,67 @@ Lemma suspend_waitclk_circ : forall cfg pid c ph s, s_circ (suspend_waitclk cfg 
 Proof. intros. unfold suspend_waitclk, fresh_id. destruct (eff_clk cfg c); reflexivity. Qed.
 
 (* a step that logs one quiet entry and leaves the circuit alone *)
-Lemma quiet_one : forall s s0 s' pid a,
+Lemma quiet_one : forall aw s s0 s' pid a,
   same_lg s s0 -> same_ctl s s0 -> s_circ s0 = s_circ s ->
   same_lg (log_proc pid a s0) s' -> s_circ s' = s_circ (log_proc pid a s0) ->
-  halted s = false -> quiet_action a -> effect s s'.
+  halted s = false -> quiet_action' aw a -> effect aw s s'.
 Proof.
-  intros s s0 s' pid a (L0 & E0 & O0) (C1 & C2 & C3 & C4) Ci0 (L1 & E1 & O1) Ci1 H Qa.
+  intros aw s s0 s' pid a (L0 & E0 & O0) (C1 & C2 & C3 & C4) Ci0 (L1 & E1 & O1) Ci1 H Qa.
   pose proof (halted_false_err s H) as He.
-  apply (EF_quiet s s' [stamped s pid a]).
+  apply (EF_quiet aw s s' [stamped s pid a]).
   - rewrite L1, log_proc_log by congruence. unfold stamped. rewrite C1, C2, C3, C4, L0. reflexivity.
   - rewrite Ci1. unfold log_proc. rewrite add_log_circ. exact Ci0.
   - rewrite E1, log_proc_err. congruence.
   - constructor; [|constructor]. exists pid, a. split; [reflexivity | exact Qa].
 Qed.
 
-Ltac quiet_tac := split; intros; discriminate.
+Ltac quiet_tac := split; [split; intros; discriminate | intros; discriminate].
 
-Lemma frame_step_effect : forall cfg f s s', frame_step cfg f s s' -> halted s = false -> effect s s'.
+Lemma frame_step_effect : forall cfg f s s', frame_step cfg f s s' -> halted s = false -> effect false s s'.
 Proof.
   intros cfg f s s' F H. pose proof (halted_false_err s H) as He.
   inversion F; subst; clear F.
-  - eapply (quiet_one s s _ pid AStart); try apply same_lg_refl; try apply same_ctl_refl; try reflexivity; [exact H | quiet_tac].
+  - eapply (quiet_one false s s _ pid AStart); try apply same_lg_refl; try apply same_ctl_refl; try reflexivity; [exact H | quiet_tac].
   - destruct (cont_states_lg _ _ _ H0) as (L & E & _).
-    apply (EF_quiet s s' []); [exact L | eapply cont_states_circ; eassumption | congruence | constructor].
+    apply (EF_quiet false s s' []); [exact L | eapply cont_states_circ; eassumption | congruence | constructor].
   - unfold finish_proc.
-    eapply (quiet_one s s _ pid AEnd); try apply same_lg_refl; try apply same_ctl_refl; try reflexivity; [| | exact H | quiet_tac].
+    eapply (quiet_one false s s _ pid AEnd); try apply same_lg_refl; try apply same_ctl_refl; try reflexivity; [| | exact H | quiet_tac].
     + match goal with |- context [fold_left ?f ?js ?x] => pose proof (fold_enqueue_lg js x) as Q end.
       eapply same_lg_trans; [|exact Q]. repeat split.
     + rewrite fold_enqueue_circ. reflexivity.
   - (* read *)
     destruct (cont_states_lg _ _ _ H0) as (L & E & _). pose proof (cont_states_circ _ _ _ H0) as Ci. cbv zeta in L, E, Ci.
-    apply (EF_read s s' pid x).
+    apply (EF_read false s s' pid x).
     + rewrite L, log_proc_log by exact He. reflexivity.
     + rewrite Ci. unfold log_proc. rewrite add_log_circ. reflexivity.
     + rewrite E, log_proc_err. exact He.
   - (* write in read-only mode *)
-    apply (EF_write_err s _ pid p v); [|reflexivity].
+    apply (EF_write_err false s _ pid p v); [|reflexivity].
     change (s_log (add_log LErr (log_proc pid (AWrite p v) (upd_proc pid (with_script rest) s))) = LErr :: stamped s pid (AWrite p v) :: s_log s).
     rewrite add_log_log, log_proc_err. change (s_err (upd_proc pid (with_script rest) s)) with (s_err s). rewrite He.
     rewrite log_proc_log by exact He. unfold stamped. reflexivity.
   - (* write *)
     destruct (cont_states_lg _ _ _ H1) as (L & E & _). pose proof (cont_states_circ _ _ _ H1) as Ci. cbv zeta in L, E, Ci.
-    apply (EF_write s s' pid p v).
+    apply (EF_write false s s' pid p v).
     + rewrite L. change (s_log (log_proc pid (AWrite p v) (upd_proc pid (with_script rest) s)) = stamped s pid (AWrite p v) :: s_log s).
       rewrite log_proc_log by exact He. reflexivity.
     + rewrite Ci. cbn [s_circ set_circ]. unfold log_proc. rewrite add_log_circ. reflexivity.
     + rewrite E. change (s_err (log_proc pid (AWrite p v) (upd_proc pid (with_script rest) s)) = false).
       rewrite log_proc_err. exact He.
   - cbv zeta.
-    eapply (quiet_one s (upd_proc pid (with_script rest) s) _ pid (AFork sid (length (s_procs (upd_proc pid (with_script rest) s)))));
+    eapply (quiet_one false s (upd_proc pid (with_script rest) s) _ pid (AFork sid (length (s_procs (upd_proc pid (with_script rest) s)))));
       [repeat split | repeat split | reflexivity | repeat split | reflexivity | exact H | quiet_tac].
-  - eapply (quiet_one s (upd_proc pid (with_script rest) s) _ pid a);
+  - eapply (quiet_one false s (upd_proc pid (with_script rest) s) _ pid a);
       [repeat split | repeat split | reflexivity | apply (cont_states_lg _ _ _ H1) | apply (cont_states_circ _ _ _ H1) | exact H |].
     destruct H0; subst; quiet_tac.
   - cbv zeta.
-    eapply (quiet_one s (upd_proc pid (with_script rest) s) _ pid (AJoinWait k));
+    eapply (quiet_one false s (upd_proc pid (with_script rest) s) _ pid (AJoinWait k));
       [repeat split | repeat split | reflexivity | repeat split | reflexivity | exact H | quiet_tac].
   - cbv zeta.
-    eapply (quiet_one s (upd_proc pid (with_script rest) s) _ pid (ASusp (WkClk c ph) (s_nextid (upd_proc pid (with_script rest) s))));
+    eapply (quiet_one false s (upd_proc pid (with_script rest) s) _ pid (ASusp (WkClk c ph) (s_nextid (upd_proc pid (with_script rest) s))));
       [repeat split | repeat split | reflexivity | apply suspend_waitclk_lg | apply suspend_waitclk_circ | exact H | quiet_tac].
   - cbv zeta.
-    eapply (quiet_one s (upd_proc pid (with_script rest) s) _ pid (ASusp (WkFor q) (s_nextid (upd_proc pid (with_script rest) s))));
+    eapply (quiet_one false s (upd_proc pid (with_script rest) s) _ pid (ASusp (WkFor q) (s_nextid (upd_proc pid (with_script rest) s))));
       [repeat split | repeat split | reflexivity | apply suspend_waitfor_lg | reflexivity | exact H | quiet_tac].
   - (* WaitChange: two entries *)
     cbv zeta. set (s0 := upd_proc pid (with_script rest) s).
@@ -219,7 +222,7 @@ Proof.
     assert (E1 : s_err s1 = false) by (unfold s1; rewrite log_proc_err; exact He).
     assert (C1 : same_ctl s s1) by (eapply same_ctl_trans; [|apply log_proc_ctl]; repeat split).
     destruct C1 as (C11 & C12 & C13 & C14).
-    apply (EF_quiet s _ [stamped s pid (AWatch (read_mask m s1)); stamped s pid (ASusp (WkChange m) (s_nextid s0))]).
+    apply (EF_quiet false s _ [stamped s pid (AWatch (read_mask m s1)); stamped s pid (ASusp (WkChange m) (s_nextid s0))]).
     + destruct (suspend_waitchange_lg pid m (log_watch pid m s1)) as (L & _). rewrite L.
       unfold log_watch. rewrite log_proc_log by exact E1.
       change (s_log s1) with (s_log (log_proc pid (ASusp (WkChange m) (s_nextid s0)) s0)).
@@ -231,19 +234,19 @@ Proof.
     + constructor; [eexists _, _; split; [reflexivity | quiet_tac]|].
       constructor; [eexists _, _; split; [reflexivity | quiet_tac] | constructor].
   - cbv zeta.
-    eapply (quiet_one s (upd_proc pid (with_script rest) s) _ pid (ASusp WkStable 0));
+    eapply (quiet_one false s (upd_proc pid (with_script rest) s) _ pid (ASusp WkStable 0));
       [repeat split | repeat split | reflexivity | repeat split | reflexivity | exact H | quiet_tac].
 Qed.
 
 Lemma log_wake_quiet : forall pid w g s, halted s = false ->
   exists new, s_log (log_wake pid w g s) = new ++ s_log s /\ s_circ (log_wake pid w g s) = s_circ s /\
               s_err (log_wake pid w g s) = false /\
-              Forall (fun e => exists pid a, e = stamped s pid a /\ quiet_action a) new.
+              Forall (fun e => exists pid a, e = stamped s pid a /\ quiet_action' true a) new.
 Proof.
   intros pid w g s H. pose proof (halted_false_err s H) as He. unfold log_wake.
   assert (W1 : exists new, s_log (log_proc pid (AWake w g) s) = new ++ s_log s /\ s_circ (log_proc pid (AWake w g) s) = s_circ s /\
               s_err (log_proc pid (AWake w g) s) = false /\
-              Forall (fun e => exists pid a, e = stamped s pid a /\ quiet_action a) new).
+              Forall (fun e => exists pid a, e = stamped s pid a /\ quiet_action' true a) new).
   { exists [stamped s pid (AWake w g)]. split; [apply log_proc_log; exact He|].
     split; [unfold log_proc; apply add_log_circ|]. split; [rewrite log_proc_err; exact He|].
     constructor; [eexists _, _; split; [reflexivity | quiet_tac] | constructor]. }
@@ -263,17 +266,17 @@ Proof.
     constructor; [eexists _, _; split; [reflexivity | quiet_tac] | constructor].
 Qed.
 
-Lemma task_head_effect : forall t s stk s', task_head t s = (stk, s') -> halted s = false -> effect s s'.
+Lemma task_head_effect : forall t s stk s', task_head t s = (stk, s') -> halted s = false -> effect true s s'.
 Proof.
   intros t s stk s' E H. pose proof (halted_false_err s H) as He.
   assert (E' : s' = snd (task_head t s)) by (rewrite E; reflexivity). clear E. subst s'.
-  assert (Z : effect s s) by (apply (EF_quiet s s []); [reflexivity | reflexivity | exact He | constructor]).
+  assert (Z : effect true s s) by (apply (EF_quiet true s s []); [reflexivity | reflexivity | exact He | constructor]).
   destruct t as [pid|pid w g|pid n]; simpl.
   - exact Z.
   - destruct (log_wake_quiet pid w g s H) as (new & L & Ci & Er & Fa).
-    destruct (p_fiber (get_proc pid (log_wake pid w g s))); simpl; apply (EF_quiet s _ new); assumption.
+    destruct (p_fiber (get_proc pid (log_wake pid w g s))); simpl; apply (EF_quiet true s _ new); assumption.
   - destruct n; simpl; [exact Z|]. destruct (p_script (get_proc pid s)); simpl; [exact Z|].
-    apply (EF_quiet s _ []); [reflexivity | reflexivity | exact He | constructor].
+    apply (EF_quiet true s _ []); [reflexivity | reflexivity | exact He | constructor].
 Qed.
 
 (* ------------------------------------------------------------------------- *)
@@ -302,13 +305,13 @@ Lemma stamped_not_reeval : forall s pid a, stamped s pid a <> LReeval.
 Proof. intros. discriminate. Qed.
 
 (* quiet entries change none of the log functions *)
-Lemma quiet_entries : forall s new l,
-  Forall (fun e => exists pid a, e = stamped s pid a /\ quiet_action a) new ->
+Lemma quiet_entries : forall aw s new l,
+  Forall (fun e => exists pid a, e = stamped s pid a /\ quiet_action' aw a) new ->
   regs_of_log (new ++ l) = regs_of_log l /\ (forall p, pinv p (new ++ l) = pinv p l) /\
   after_reeval (new ++ l) = after_reeval l /\ since_reeval (new ++ l) = new ++ since_reeval l /\
   c_of_log (new ++ l) = c_of_log l /\ Forall (fun e => is_write e = false) new.
 Proof.
-  intros s new l F. induction F as [|e r (pid & a & -> & Qr & Qw) Fr IH]; simpl app.
+  intros aw s new l F. induction F as [|e r (pid & a & -> & (Qr & Qw) & _) Fr IH]; simpl app.
   - repeat split; try reflexivity. constructor.
   - destruct IH as (I1 & I2 & I3 & I4 & I5 & I6).
     assert (NW : is_write (stamped s pid a) = false).
@@ -322,10 +325,10 @@ Proof.
     + constructor; assumption.
 Qed.
 
-Lemma log_ok_quiet : forall two s new l,
-  Forall (fun e => exists pid a, e = stamped s pid a /\ quiet_action a) new -> log_ok two l -> log_ok two (new ++ l).
+Lemma log_ok_quiet : forall aw two s new l,
+  Forall (fun e => exists pid a, e = stamped s pid a /\ quiet_action' aw a) new -> log_ok two l -> log_ok two (new ++ l).
 Proof.
-  intros two s new l F Ho. induction F as [|e r (pid & a & -> & Qr & Qw) Fr IH]; [exact Ho|].
+  intros aw two s new l F Ho. induction F as [|e r (pid & a & -> & (Qr & Qw) & _) Fr IH]; [exact Ho|].
   simpl. split; [exact IH|]. unfold stamped. destruct a; try exact I. exfalso. eapply Qr. reflexivity.
 Qed.
 
@@ -401,20 +404,20 @@ Proof.
   simpl. split; [exact IH|]. destruct e; try exact I; try contradiction. destruct a; try exact I. contradiction.
 Qed.
 
-Lemma quiet_is_plain : forall s new,
-  Forall (fun e => exists pid a, e = stamped s pid a /\ quiet_action a) new -> Forall plain new.
+Lemma quiet_is_plain : forall aw s new,
+  Forall (fun e => exists pid a, e = stamped s pid a /\ quiet_action' aw a) new -> Forall plain new.
 Proof.
-  intros s new F. eapply Forall_impl; [|exact F]. intros e (pid & a & -> & Qr & Qw).
+  intros aw s new F. eapply Forall_impl; [|exact F]. intros e (pid & a & -> & (Qr & Qw) & _).
   split; [|split; [discriminate | intros; discriminate]].
   unfold stamped, is_write. destruct a; try reflexivity. exfalso. eapply Qw. reflexivity.
 Qed.
 
 (* a process step / task head *)
-Lemma inv3_effect : forall two s s',
-  inv3 two s -> halted s = false -> effect s s' -> same_ctl s s' ->
+Lemma inv3_effect : forall aw two s s',
+  inv3 two s -> halted s = false -> effect aw s s' -> same_ctl s s' ->
   (forall e, In e (s_queue s') -> ev_shape e) -> inv3 two s'.
 Proof.
-  intros two s s' [Ish Ilg Ist] H Ef Ct Sh. pose proof (halted_false_err s H) as He. specialize (Ist He).
+  intros aw two s s' [Ish Ilg Ist] H Ef Ct Sh. pose proof (halted_false_err s H) as He. specialize (Ist He).
   destruct Ef as [new L Ci Er Fa | pid x L Ci Er | pid p v L Ci Er | pid p v L Er].
   - constructor; [exact Sh | rewrite L; eapply log_ok_quiet; eassumption |].
     intros _. eapply st_part_plain; [exact Ist | exact L | eapply quiet_is_plain; exact Fa | exact Ci | apply same_ctl_stamp; exact Ct].
@@ -514,13 +517,13 @@ Proof.
   - (* process step *)
     pose proof (step_frame_spec _ _ _ _ _ Hsf) as F.
     pose proof (step_frame_ctl cfg f s) as C. rewrite Hsf in C. cbn [snd] in C.
-    apply (inv3_effect two s s' IH0 Hh (frame_step_effect cfg f s s' F Hh) C).
+    apply (inv3_effect false two s s' IH0 Hh (frame_step_effect cfg f s s' F Hh) C).
     destruct (frame_step_bk cfg f s s' F) as [Q|pid q Q|pid c ph Q|pid m Q|pid Q]; rewrite Q; try exact Ish.
     apply shape_insert; [exact I | exact Ish].
   - pose proof (task_head_ctl t (set_ready r s)) as C. rewrite Hth in C. cbn [snd] in C.
     pose proof (task_head_bk t (set_ready r s)) as B. rewrite Hth in B. cbn [snd] in B. destruct B as (Q & _).
     assert (I0 : inv3 two (set_ready r s)) by (destruct IH0; constructor; assumption).
-    apply (inv3_effect two (set_ready r s) s' I0 Hh (task_head_effect t (set_ready r s) stk s' Hth Hh) C).
+    apply (inv3_effect true two (set_ready r s) s' I0 Hh (task_head_effect t (set_ready r s) stk s' Hth Hh) C).
     rewrite Q. exact Ish.
   - (* event *)
     destruct (pop_event_queue s e s1 Hpop) as (e2 & rr & Qc & _ & _ & _ & _ & _ & Ci1 & _).
@@ -648,8 +651,8 @@ Proof.
     unfold fiber_start in Hfs.
     assert (E' : s' = snd (fiber_continue pid (log_proc pid AStart s))) by (rewrite Hfs; reflexivity).
     pose proof (fiber_continue_cont pid (log_proc pid AStart s)) as Cs. rewrite <- E' in Cs.
-    apply (inv3_effect two s s' IH0 Hh).
-    + eapply (quiet_one s s s' pid AStart); try apply same_lg_refl; try apply same_ctl_refl; try reflexivity;
+    apply (inv3_effect false two s s' IH0 Hh).
+    + eapply (quiet_one false s s s' pid AStart); try apply same_lg_refl; try apply same_ctl_refl; try reflexivity;
         [apply (cont_states_lg _ _ _ Cs) | apply (cont_states_circ _ _ _ Cs) | exact Hh | quiet_tac].
     + eapply same_ctl_trans; [apply log_proc_ctl | apply (cont_states_ctl _ _ _ Cs)].
     + destruct (cont_states_bk _ _ _ Cs) as (Q & _). rewrite Q. destruct (log_proc_bk pid AStart s) as (Q' & _). rewrite Q'. exact Ish.
